@@ -196,6 +196,11 @@ def run(ctx):
     ok = common.proof_stage(ctx, MODULE)
     div_iip, div_norm = run_strings(ctx)
     stage_effects(ctx)
+    # the names a recursive import (scan) request stores, for canonical, dotted and escaping spellings of the directory
+    import env as envmod
+    from props import c04
+    with envmod.Env() as e_scan:
+        c04.stage_scan(ctx, e_scan)
     ctx.coverage["exhaustive"] = True
     ctx.coverage["rule"] = ("all strings over {/,.,a} to length %d and over {/,.,a,space,\\n} to length %d, plus random "
                             "component-joined strings; non-trivial = contains '/' or '.'; every string goes through the real "
